@@ -13,8 +13,9 @@ from hypothesis import strategies as st
 
 MAX_TICK = 200 * 48
 
-BPM_POOL = ["60", "120", "90.5", "240", "1", "2000", "133.333", "180.25", "59.999", "300", "7.5", "1000.001"]
-LEN_POOL = ["0.25", "0.5", "1.125", "0.001", "10", "0.333", "2"]
+# the last entries: the same kind of numbers in other spellings a decimal parser accepts (exponent, sign, bare dot)
+BPM_POOL = ["60", "120", "90.5", "240", "1", "2000", "133.333", "180.25", "59.999", "300", "7.5", "1000.001", "1.5E+2", "1.2e2", "+120", "120.", "0120.50"]
+LEN_POOL = ["0.25", "0.5", "1.125", "0.001", "10", "0.333", "2", ".25", "2.5E-1", "+0.5", "5E-1", "1e0"]
 
 bpm_value = st.one_of(
     st.sampled_from(BPM_POOL),
@@ -26,7 +27,7 @@ pause_value = st.one_of(
     st.decimals(D("0.001"), 10, places=3, allow_nan=False, allow_infinity=False).map(str),
 )
 offset_value = st.one_of(
-    st.sampled_from(["0", "-0.009", "1.5", "0.25", "0.000", "-12.345678"]),
+    st.sampled_from(["0", "-0.009", "1.5", "0.25", "0.000", "-12.345678", None, "", "-9E-3", "+1.5"]),
     st.decimals(-100, 100, places=3, allow_nan=False, allow_infinity=False).map(str),
     st.decimals(-100, 100, places=6, allow_nan=False, allow_infinity=False).map(str),
 )
@@ -69,7 +70,8 @@ def timelines(draw, max_events=4, span=None):
         "warps": warps,
         "offset": draw(offset_value),
         # where the timing data comes from: SSC simfile, SM simfile, SM simfile with the FREEZES spelling, SSC chart
-        "source": draw(st.sampled_from(["ssc", "ssc", "ssc", "ssc", "sm", "sm-freezes", "sm-freezes", "ssc-chart"])),
+        "source": draw(st.sampled_from(["ssc", "ssc", "ssc", "ssc", "sm", "sm-freezes", "sm-freezes", "ssc-chart", "ssc-chart", "sm-stale-freezes", "sm-stale-freezes-first"])),
+        "version": draw(st.sampled_from(["0.83", "0.83", "0.7", " 0.83", "+0.83", "1.0", "0.70 ", ".7", "00.83"])),
     }
 
 
@@ -99,7 +101,7 @@ def _events():
 EVENTS = _events()
 
 
-_SOURCES = ("ssc", "sm-freezes", "ssc-chart", "sm")
+_SOURCES = ("ssc", "sm-freezes", "ssc-chart", "sm", "sm-stale-freezes", "ssc-chart", "sm-stale-freezes-first", "ssc")
 
 
 def placement_timeline(combo):
@@ -129,7 +131,8 @@ def placements(max_events):
             if len(wb) != len(set(wb)):
                 continue
             tl = placement_timeline(combo)
-            tl["source"] = _SOURCES[_count % 4]
+            tl["source"] = _SOURCES[_count % len(_SOURCES)]
+            tl["version"] = ("0.83", " 0.83", "0.7", "+1.0")[(_count // len(_SOURCES)) % 4]
             _count += 1
             yield tl
 
